@@ -7,6 +7,7 @@ import (
 	"strings"
 	"sync"
 	"sync/atomic"
+	"time"
 
 	"github.com/elementsproject/peerswap/messages"
 )
@@ -266,6 +267,46 @@ func init() {
 		type probe struct{ name, step string }
 		probes := []probe{
 			{"third cancel", "cancel from=third"}, {"third coop", "coop from=third"}, {"third txmsg", "txmsg from=third"}, {"third agree", "agree from=third"},
+		}
+		// two requests with the SAME id in flight at once (the CLN plugin handles every incoming message in its own
+		// goroutine): the second has passed the "id known?" test and waits in a Lightning call while the first is
+		// admitted, cancelled by the peer and finished; then the second goes on.  The finished swap's record must stay.
+		for _, kind := range []string{"inReceiver", "outReceiver"} {
+			w := newWorld(defaultCfg())
+			id := strings.Repeat("ab", 32)
+			a, b := newCtx(w), newCtx(w)
+			reached, gate := make(chan bool, 1), make(chan bool)
+			var first int32
+			hook := func() {
+				if atomic.CompareAndSwapInt32(&first, 0, 1) {
+					reached <- true
+					<-gate
+				}
+			}
+			w.setHook("canspend", hook)
+			w.setHook("receivable", hook)
+			done := make(chan string, 1)
+			go func() { done <- b.Step("new " + kind + " btc scid=777x1x0 amt=2000000 id=" + id) }()
+			select {
+			case <-reached:
+				r1 := a.Step("new " + kind + " btc id=" + id)
+				r2 := a.Step("cancel")
+				before := w.swapRecordJSON(id)
+				close(gate)
+				r3 := <-done
+				after := w.swapRecordJSON(id)
+				res.Evaluations++
+				res.Distinct++
+				res.Histogram["same id in flight twice ("+kind+")"]++
+				if before != "" && before != after {
+					res.addFinding("C09/record-changed/id-reuse-in-flight/"+kind, "a request that was in flight when a swap with the same id was created and finished took over the id: the finished swap's record was replaced",
+						map[string]string{"schedule": "request 2 (id X, channel 777x1x0) passes the id test and waits in a Lightning call; request 1 (id X) -> " + r1 + "; cancel -> " + r2 + "; request 2 continues -> " + r3})
+				}
+			case <-time.After(3 * time.Second):
+				res.Histogram["same id in flight twice: hook not reached ("+kind+")"]++
+				close(gate)
+			}
+			w.close()
 		}
 		// a message from a third party must not change what happens NEXT either: the honest run with one foreign
 		// message (same swap id, same type the swap is waiting for or any other) inserted at any point ends like the
